@@ -11,6 +11,7 @@ use rand::Rng;
 use serde_json::{json, Value};
 
 pub struct SampleOpts {
+    pub stab_all: bool,
     pub seed: u64,
     pub base_idx: u64,
     pub points_per_line: usize,
@@ -239,7 +240,7 @@ fn make_point(line: &Line, dim: usize, order: Option<&[usize]>, rng: &mut impl R
         } else if i < 2 * e - 2 {
             x[i] = match extreme {
                 1 => [0.5, 0.25, 0.75, 1e-3, 0.999][rng.gen_range(0..5)],
-                2 => [1e-6, 1.0 - 1e-9, 0.5, 1e-12][rng.gen_range(0..4)],
+                2 => [1e-6, 1.0 - 1e-9, 0.5, 1e-12, 0.0, 1e-300][rng.gen_range(0..6)],
                 _ => rng.gen_range(0.02..0.98),
             };
         } else if i == 2 * e - 2 {
@@ -312,6 +313,12 @@ fn check_point(cx: &mut Ctx, s: &dyn DynSampler, cached_spec: Option<f64>, ri: u
     }
     let o = out.obs.as_ref().unwrap();
     let meta = o.meta.as_ref().unwrap();
+    if stab.is_some() {
+        cx.sm.count("ok_samples_with_stability_test");
+        let nan = o.u.is_nan() || meta.det.is_nan() || meta.inverse.iter().chain(meta.q_t.iter()).chain(meta.q_t_inv.iter()).flatten().any(|v| v.is_nan());
+        if nan { cx.viol("C16", "a sample returned Ok with NaN in its decomposition although matrix_stability_test is Some(tol)".into(), ri, x, json!({"u": o.u})); }
+        if o.u == 0.0 { cx.viol("C16", "a sample returned Ok with a zero determinant".into(), ri, x, json!({})); }
+    }
     let (xun, xres, utr, vtr) = match (getlog(&out.log, "momtrop_feynman_parameter_no_rescaling"), getlog(&out.log, "momtrop_feynman_parameter"),
                                        getlog(&out.log, "momtrop_u_trop_no_rescaling"), getlog(&out.log, "momtrop_v_trop_no_rescaling")) {
         (Some(a), Some(b), Some(c), Some(dv)) => (vf(a), vf(b), c.as_f64().unwrap_or(f64::NAN), dv.as_f64().unwrap_or(f64::NAN)),
@@ -396,8 +403,11 @@ fn check_point(cx: &mut Ctx, s: &dyn DynSampler, cached_spec: Option<f64>, ri: u
             cx.viol("C08", format!("L[{}][{}] = {} differs from sum_e x_e s_ei s_ej = {}", i, j, lm[i][j], lspec[i][j]), ri, x, json!({}));
         }
     } }
-    let linv = inv_f64(&lspec);
-    let cond = linv.as_ref().map(|li| norm1(&lspec) * norm1(li)).unwrap_or(f64::INFINITY);
+    // condition number of the diagonally scaled matrix D^-1/2 L D^-1/2: the Cholesky factorisation is accurate
+    // relative to THIS number (van der Sluis / Demmel), so strongly graded L matrices are still decidable
+    let lsc: Vec<Vec<f64>> = (0..l).map(|i| (0..l).map(|j| lspec[i][j] / (lspec[i][i] * lspec[j][j]).sqrt()).collect()).collect();
+    let linv = inv_f64(&lsc);
+    let cond = linv.as_ref().map(|li| norm1(&lsc) * norm1(li)).unwrap_or(f64::INFINITY);
     let u_res = line.u_poly(&xres);
     let f_res = line.f_poly(&xres);
     let v_res = f_res / u_res;
@@ -670,7 +680,7 @@ pub fn run(lines: &[Value], opts: &SampleOpts) -> Summary {
         for k in 0..opts.points_per_line { pts.push(make_point(&line, dim, None, &mut rng, (k % 3) as u32)); }
         if line.e >= 2 && line.l >= 2 {
             use rand::seq::SliceRandom;
-            for r in [7u32, 9, 10, 11, 12, 13] {
+            for r in [7u32, 9, 10, 11, 12, 13, 16, 20] {
                 let mut o: Vec<usize> = (0..line.e).collect(); o.shuffle(&mut rng);
                 pts.push(make_point(&line, dim, Some(&o), &mut rng, 100 + r));
                 sm.count("spread_points");
@@ -678,7 +688,7 @@ pub fn run(lines: &[Value], opts: &SampleOpts) -> Summary {
         }
         let mut cx = Ctx { line: &line, inst, idx, sm: &mut sm };
         for pt in &pts {
-            let stab = if rng.gen_bool(0.2) { Some(1e-3) } else { None };
+            let stab = if opts.stab_all { Some([1e-3, 1e-9, 1e-16, 1.0][rng.gen_range(0..4)]) } else if rng.gen_bool(0.2) { Some(1e-3) } else { None };
             let mut res = vec![];
             for (ri, s) in samplers.iter().enumerate() {
                 if let Some(r) = check_point(&mut cx, s.as_ref(), cached_spec, ri, pt, stab) { res.push((ri, r)); }
